@@ -514,6 +514,9 @@ class TypeTransformer:
 
         data = self._attempt_from(data)
         if isinstance(data, (int, float, Decimal)):
+            if abs(data) == float('inf'):
+                # dividing an infinite timestamp never gets below the watershed
+                raise ValueError('invalid datetime: infinite timestamp')
             while abs(data) > self.MS_WATERSHED:
                 data /= 1000
             return t.utcfromtimestamp(data).replace(tzinfo=timezone.utc)
@@ -552,6 +555,8 @@ class TypeTransformer:
         except (TypeError, ValueError):
             pass
         else:
+            if abs(num) == float('inf'):
+                raise TypeError('invalid datetime: infinite timestamp')
             while abs(num) > self.MS_WATERSHED:
                 num /= 1000
             return t.utcfromtimestamp(num).replace(tzinfo=timezone.utc)
